@@ -63,7 +63,7 @@ def contracts():
             Err(_) => no_endpoint(*cnf, self.endpoint@),
         }, //@C14.endpoint_reference_resolves_or_error
 """, loops={1: "    invariant forall|j: int| 0 <= j < it.index@ ==> cnf.endpoint@[j].name@ != self.endpoint@,"},
-        at=[("before", "cnf.endpoint.iter()", 1, "it:"),
+        at=[("loop_iter", None, 1, "it:"),
             ("before_stmt", "return Ok(endpoint.clone())", 1, "proof { assert(first_endpoint(*cnf, self.endpoint@, it.index@)); }")])
     cert_pre = ""
     c["Certificate::get_renew_delay"] = FnSpec(ret="r", sig="    ensures" + dur_res("self.renew_delay_src(*cnf)", THIRTY_DAYS_NS, "C14.certificate_over_endpoint_over_global_renew_delay"),
@@ -90,7 +90,7 @@ def contracts():
             Err(_) => forall|i: int| 0 <= i < self.rate_limit@.len() ==> self.rate_limit@[i].name@ != name@,
         }, //@C14.rate_limit_reference_resolves_or_error
 """, loops={1: "    invariant forall|j: int| 0 <= j < it.index@ ==> self.rate_limit@[j].name@ != name@,"},
-        at=[("before", "self.rate_limit.iter()", 1, "it:")])
+        at=[("loop_iter", None, 1, "it:")])
     # ---- C13: mode getters, defaults pinned
     c["Config::get_cert_file_mode"] = FnSpec(ret="r", sig="""
     ensures r == (match self.global { Some(g) => (match g.cert_file_mode { Some(m) => m, None => 0o644u32 }), None => 0o644u32 }), //@C13.cert_mode_default_0644
@@ -116,7 +116,7 @@ def contracts():
     invariant no_hook(*self, name@), first_group(*self, name@, it2.index@), max_depth > 0, *$grp == self.group@[it2.index@ as int],
         expand_list(*self, $grp.hooks@.take(it3.index@), (max_depth - 1) as nat) == Some(hook_names($ret@)),
 """},
-        at=[("before", "self.hook.iter()", 1, "it1:"), ("before", "self.group.iter()", 1, "it2:"), ("before", "$grp.hooks.iter()", 1, "it3:"),
+        at=[("loop_iter", None, 1, "it1:"), ("loop_iter", None, 2, "it2:"), ("loop_iter", None, 3, "it3:"),
             ("before_stmt", "return Ok(vec![$h1])", 1, """
                 proof {
                     assert(first_hook(*self, name@, it1.index@));
@@ -158,7 +158,7 @@ def contracts():
 """)
     c["Certificate::get_hooks"].loops = {1: "    invariant expand_list(*cnf, self.hooks@.take(it.index@), cnf.group@.len()) == Some(hook_names(res@)),"}
     c["Certificate::get_hooks"].at = [
-        ("before", "self.hooks.iter()", 1, "it:"),
+        ("loop_iter", None, 1, "it:"),
         ("before_stmt", "for name in", 1, "proof { assert(self.hooks@.take(0) =~= Seq::<String>::empty()); assert(hook_names(res@) =~= Seq::<Seq<char>>::empty()); }"),
         ("before_stmt", "res.append(&mut h)", 1, "let ghost res_before = res; let ghost h_before = h;"),
         ("after_stmt", "res.append(&mut h)", 1, """
@@ -171,7 +171,7 @@ def contracts():
         ("before_tail", None, 1, "proof { assert(self.hooks@.take(self.hooks@.len() as int) =~= self.hooks@); }")]
     c["Account::get_hooks"].loops = {1: "    invariant expand_list(*cnf, h@.take(it.index@), cnf.group@.len()) == Some(hook_names(res@)), self.hooks == Some(*h), hs@ == h@,"}
     c["Account::get_hooks"].at = [
-        ("before", "h.iter()", 1, "it:"),
+        ("loop_iter", None, 1, "it:"),
         ("before_stmt", "for name in", 1, "proof { assert(h@.take(0) =~= Seq::<String>::empty()); assert(hook_names(res@) =~= Seq::<Seq<char>>::empty()); }"),
         ("before_stmt", "res.append(&mut h)", 1, "let ghost res_before = res; let ghost h_before = h;"),
         ("after_stmt", "res.append(&mut h)", 1, """
@@ -194,7 +194,7 @@ def contracts():
         r is Ok ==> forall|k: int| 0 <= k < self.rate_limits@.len() ==> rl_exists(*cnf, #[trigger] self.rate_limits@[k]@), //@C14.rate_limit_reference_resolves_or_error
 """, loops={1: """
     invariant forall|k: int| 0 <= k < it.index@ ==> rl_exists(*cnf, #[trigger] self.rate_limits@[k]@),
-"""}, at=[("before", "self.rate_limits.iter()", 1, "it:"),
+"""}, at=[("loop_iter", None, 1, "it:"),
           ("before_stmt", "crate::endpoint::Endpoint::new(", 1, """
         proof {
             assert(strs(root_lst@) =~= strs_ref(root_certs@) + opt_strs(self.root_certificates)
@@ -216,7 +216,7 @@ def contracts():
 """, 2: """
     invariant cnf_inv(*w, loaded_files@, old(loaded_files)@, path@),
 """},
-        at=[("before", "config.include.iter()", 1, "it1:"),
+        at=[("loop_iter", None, 1, "it1:"),
             ("before_stmt", "let mut add_cnf = read_cnf", 1, """
             let ghost lf_before = loaded_files@;
             proof {
